@@ -647,7 +647,7 @@ int main(int argc, char** argv)
         return 0;
     }
     e->enumerate(nmin, nmax, c12::now_s() + deadline, ordinal);
-    vf::stat("kinds");
+    vf::stat("kind_size_range_runs");
     vf::done();
     return 0;
 }
